@@ -47,6 +47,11 @@ def start_race_kinds(info, alt):
     return info[0][2] == "thread.started" or info[alt][1] == "early"
 
 
+def start_race_kinds_quick(info, alt):
+    """Quick tier: the early wake-ups are restricted to the provider (DUL) threads."""
+    return info[0][2] == "thread.started" or (info[alt][1] == "early" and "dul" in info[alt][0])
+
+
 def mon_history_local(scn, s, ctx, why):
     """mon_history for the one real side of a raw-peer scenario."""
     a = ctx["res"].get("assoc")
@@ -116,7 +121,7 @@ def run(ctx: core.Ctx) -> core.Result:
         r_.point_after_spawn = True
         r_.name = r_.name + "+start-race"
         racers.append(r_)
-    rres = lifecycle.run_family(ctx, racers if not ctx.quick else racers[:1], D=2, kinds=start_race_kinds)
+    rres = lifecycle.run_family(ctx, racers if not ctx.quick else racers[:1], D=2, kinds=start_race_kinds if not ctx.quick else start_race_kinds_quick)
     seen0 = {v.key for v in res.violations}
     for v in rres.violations:
         if v.key not in seen0:
